@@ -14,4 +14,10 @@ Example C05_example :
   tasks_of s 0 = 1.
 Proof. vm_compute. repeat split; reflexivity. Qed.
 
+(** Monitor soundness: the extracted monitor for C05 (all five clauses) never rejects a stream of the model (P-iter). *)
+From TP Require PMonSound_C05 PObs PMon.
+Theorem mon_sound : forall c tr, clean (run c tr) -> taint_iter (run c tr) = false -> PMon.ok_C05 c (PObs.observe c tr) = true.
+Proof. exact PMonSound_C05.mon_C05_sound. Qed.
+
 Print Assumptions C05.
+Print Assumptions mon_sound.
